@@ -9,11 +9,29 @@ EXH_BLOCKS = 123
 STAGES = 3
 
 
-def _stage(level, quick, thorough):
+def _stage(level, quick, thorough, name=None, isa=""):
     # `rel` library variant for every stage (inline assembly is optimisation dependent, sanitizers would
     # change code generation); the last -O on the command line wins, C16_OPT is cross-checked in the TUs
-    return seq("O%d" % level, "rel", SRC, quick, thorough, mode="O%d" % level,
-               extra_cflags="-O%d -DC16_OPT=%d" % (level, level))
+    return seq(name or "O%d" % level, "rel", SRC, quick, thorough, mode="O%d" % level,
+               extra_cflags="-O%d -DC16_OPT=%d%s" % (level, level, isa))
+
+
+def _cpu_has_v3():
+    # the helpers are static inline: they are compiled with the CALLER's target flags. A user translation unit built
+    # with -march=native / x86-64-v3 defines __BMI__, __BMI2__, __LZCNT__, __AVX2__ ... and may select other code in
+    # the headers (and other instructions for the builtins). Only offered when this CPU can execute it.
+    try:
+        flags = set()
+        for line in open("/proc/cpuinfo"):
+            if line.startswith("flags"):
+                flags = set(line.split(":", 1)[1].split())
+                break
+        return {"avx2", "bmi1", "bmi2", "abm", "fma", "movbe", "f16c"} <= flags
+    except OSError:
+        return False
+
+
+_V3 = [_stage(2, 8000, 250000, name="O2_v3", isa=" -march=x86-64-v3")] if _cpu_has_v3() else []
 
 
 CFG = dict(
@@ -21,6 +39,7 @@ CFG = dict(
         _stage(0, 6000, 250000),
         _stage(2, 8000, 250000),
         _stage(3, 8000, 250000),
+    ] + _V3 + [
         # several threads converting ticks at once, each on its own frequency pair; digests must equal the single-threaded run
         seq("mt_tsan", "tsan", "mt_pure.c", 32, 3200, mode="clock", params={0: 400}, wrap=True, leak=False),
         seq("mt_rel", "rel", "mt_pure.c", 64, 6400, mode="clock", params={0: 6000}, leak=False),
@@ -45,6 +64,7 @@ CFG = dict(
           "optimisation level, all operands of the block)."),
     assumptions=[
         "x86-64, gcc 12: the MSVC, ARM64 and CBMC implementations of math.h cannot be compiled here and are not observed",
+        "stage O2_v3 (caller compiled with -march=x86-64-v3) exists only when the CPU running the check has AVX2/BMI1/BMI2/LZCNT/FMA/MOVBE",
         "frequencies passed to aws_timestamp_convert_u64 are in 1..10^9 (the property's range; clock.inl's remainder-part "
         "multiplication is only exact there)",
         "the value left in *r by a checked helper that reports overflow is unspecified (not compared; counted)",
@@ -88,4 +108,4 @@ META = dict(
     technique="runtime monitoring: differential testing of 12 variant x optimisation instances against 128-bit reference arithmetic",
 )
 
-CFG["rule"] += (" " + "Additions: 'literal' compilation context (every 64-bit helper with one operand an integer constant expression from a list of 20, as second and as first operand); stages mt_tsan/mt_rel convert ticks from several threads, each on its own frequency pair, and compare with the single-threaded run.")
+CFG["rule"] += (" " + "Additions: 'literal' compilation context (every 64-bit helper with one operand an integer constant expression from a list of 20, as second and as first operand); stages mt_tsan/mt_rel convert ticks from several threads, each on its own frequency pair, and compare with the single-threaded run. Stage O2_v3 repeats the -O2 stage with the variant translation units compiled for -march=x86-64-v3 (the helpers are static inline and take the caller's target flags: __BMI__, __LZCNT__, __AVX2__ defined).")
